@@ -373,7 +373,7 @@ func (s *shardSet) write(kind, typ, modelF, propF string, cases []string) {
 		fmt.Fprintf(&sb, "Definition M := Eval vm_compute in (bad %s cases).\n", modelF)
 		fmt.Fprintf(&sb, "Definition P := Eval vm_compute in (bad %s cases).\n", propF)
 		if typ == "ecase" {
-			sb.WriteString("Definition A := Eval vm_compute in (bad ecase_absent_ok cases).\n")
+			sb.WriteString("Definition A := Eval vm_compute in (map ecase_why cases).\n")
 		} else {
 			sb.WriteString("Definition A := @nil N.\n")
 		}
